@@ -14,13 +14,14 @@ TOL = 1e-8
 
 def generate(ctx):
     rng = ctx.rng
-    for _ in range(ctx.n(200, 10000)):
+    for _ in range(ctx.n(700, 10000)):
         cls = rng.choice(["generic-tree", "generic-tree", "generic-cyclic", "collinear-chain", "axis-chain",
                           "tilted-axis-chain", "partly-collinear", "nearly-collinear", "nearly-collinear",
                           "two-atom", "two-atom", "one-atom"])
         pos, bonds, cls = E.gen_ref(rng, cls)
         axis, theta, t = E.gen_rigid(rng)
-        yield {"ref": {"pos": pos, "bonds": [list(b) for b in bonds]}, "tgt": E.gen_tgt(rng, pos, cls),
+        to_origin = rng.random() < (0.35 if cls in ("one-atom", "two-atom") else 0.05)
+        yield {"to_origin": to_origin, "ref": {"pos": pos, "bonds": [list(b) for b in bonds]}, "tgt": E.gen_tgt(rng, pos, cls),
                "s": E.gen_scale(rng), "mode": "rigid", "cls": cls, "seed": rng.randrange(2 ** 31),
                "axis": axis, "theta": theta, "t": t,
                "ident": rng.choice(["fresh", "fresh", "construction-object", "reused-object"])}
@@ -35,6 +36,9 @@ def evaluate(ctx, case):
         return
     R = E.rotation(case["axis"], case["theta"])
     t = np.array(case["t"], dtype=float)
+    if case.get("to_origin"):
+        t = -(np.array(refpos, dtype=float) @ R.T)[0]
+        ctx.count("motion:atom0-to-exact-origin")
     ctx.case(case, nontrivial=case["theta"] != 0.0 or any(case["t"]),
              sample={k: case[k] for k in ("cls", "s", "axis", "theta", "t")} | {"n_ref": n, "n_tgt": len(tgt)})
     ctx.count("cls:" + case["cls"])
@@ -72,6 +76,10 @@ def evaluate(ctx, case):
                 break
     if not impl["inputs_unchanged"]:
         fails.append("inputs-modified")
+    if not impl["earlier_intact"]:
+        # the molecule returned by an EARLIER call of the same map (kept by the caller) changed when the map
+        # was applied again: what was returned for that conformation no longer satisfies the law
+        fails.append("earlier-result-changed-by-later-call")
     ctx.oracle_ok(len(tgt))
     for f in fails:
         ctx.oracle_fail(f"exchange_map:{f}:{case['cls']}", case, {"out0": out0, "out": out})
